@@ -336,7 +336,9 @@ def length_rules(ctx, w):
             n_ok += 1
             tv = U.true_variants(p)
             vids = [(D.show(e[1][0]), D.show(e[1][1])) for e in p.effects if e[0] == IV + "validate_id"]
-            good = [v for v in vids if v[0] == "s" and v[1].isdigit() and int(v[1]) in want and tv.get(f"{IV}validate_id(s, {v[1]})") == "Ok"]
+            # validate_id(..)? followed by Ok(()), or its result returned as is
+            good = [v for v in vids if v[0] == "s" and v[1].isdigit() and int(v[1]) in want and
+                    (tv.get(f"{IV}validate_id(s, {v[1]})") == "Ok" or D.show(p.ret) == f"{IV}validate_id(s, {v[1]})")]
             colon = any(e[0] == IV + "server_name::validate" for e in p.effects)
             key = f"C10.length:{mod}:{'with-server-name' if colon else 'opaque'}:{good[0][1] if good else 'none'}"
             forms[key] = bool(good)
